@@ -32,6 +32,7 @@ pub fn binit(ctx: &mut Ctx) {
 fn streams() -> Vec<Stream> {
     vec![
         Stream { name: "scenarios", count: (40_000, 1_500_000), exhaustive: false, run: |c, r, _| scenario(c, r, Focus::default(), c05_monitor) },
+        Stream { name: "scenarios-tuned-change", count: (24_000, 800_000), exhaustive: false, run: |c, r, _| scenario_tuned(c, r, Focus { coin_select: 3, ..Focus::default() }, c05_monitor) },
         Stream { name: "scenarios-assets", count: (15_000, 500_000), exhaustive: false, run: assets },
         Stream { name: "scenarios-deposits", count: (15_000, 500_000), exhaustive: false, run: deposits },
     ]
